@@ -23,6 +23,7 @@ RULE += (' Also: keys undefined for some items (neg / half over mixed raw items)
 RULE += (' Also: dict elements that are unsized one-shot iterators / generators.')
 RULE += (' Also: values ordered by < alone (no __eq__): ties neither smaller nor equal.')
 RULE += (' Also: tuple / list subclass instances as inputs; exact result types compared.')
+RULE += (' Also: awaitable and look-alike values as default / fill value / initial value (handed back or passed on as they are).')
 ASSUMPTIONS = ["builtins/functools/heapq of the running interpreter (3.12) are the reference, incl. compensated float sum"]
 EXHAUSTIVE = {"quick": False, "thorough": False}
 N_RANDOM = {"quick": 150000, "thorough": 8000000}
